@@ -213,7 +213,15 @@ Proof.
   { unfold ri_mkdir, ri_guard. rewrite Hup. unfold bind at 1. cbn [ret]. unfold bind at 1. rewrite Hl0, Hpath.
     rewrite (mutate0_ok (h_mkdir pp nm (mode_of (Dir md x ch))) s' u' u1 Hu'); [reflexivity|].
     unfold h_mkdir, h_insert. rewrite Hpp', Hnone. reflexivity. }
-  rewrite (bind_ok _ _ _ _ _ E4). unfold mod_node. eexists. split; [reflexivity|]. cbn [next_ino upper lowers set_layer].
+  (* the repaired create_upper_dir chmods the new directory only when the lower mode has set-uid / set-gid bits; under
+     hypothesis (b) of cu_ok (mode within 01777) it has none *)
+  assert (Hns : has_setid md = false).
+  { destruct (Hok (pp ++ [nm]) n (is_prefix_refl _) Hg Eup) as (md0 & x0 & ch0 & Hst0 & _ & Hm0).
+    rewrite Hst in Hst0. inversion Hst0; subst md0. unfold has_setid. rewrite <- Hm0, <- N.land_assoc.
+    change (N.land 1023 3072) with 0%N. rewrite N.land_0_r. reflexivity. }
+  assert (E5 : ri_mkdir_cu pr nm (mode_of (Dir md x ch)) s' = (Ok (mkReal 0 true (pp ++ [nm]) false false true), set_layer s' 0 u1)).
+  { unfold ri_mkdir_cu. rewrite (bind_ok _ _ _ _ _ E4). cbn [mode_of]. rewrite Hns. reflexivity. }
+  rewrite (bind_ok _ _ _ _ _ E5). unfold mod_node. eexists. split; [reflexivity|]. cbn [next_ino upper lowers set_layer].
   split; [exact I'|]. rewrite Hu'. cbn [all_layers].
   apply (oteq_trans _ (merge (u' :: lowers s'))); [|rewrite Hu' in U'; exact U'].
   destruct (Hok (pp ++ [nm]) n (is_prefix_refl _) Hg Eup) as (md0 & x0 & ch0 & Hst0 & Hx0 & Hm0).
